@@ -73,8 +73,27 @@ def _mentions(g, construct: str) -> bool:
     return any(show(s) == construct for s in subterms(g))
 
 
+VECTOR_SELECTORS = ("numpy.flatnonzero", "numpy.nonzero", "numpy.argsort", "numpy.argmin", "numpy.argmax",
+                    "numpy.searchsorted", "numpy.argpartition", "numpy.lexsort", "numpy.sort", "numpy.partition",
+                    "numpy.nanargmin", "numpy.nanargmax")
+
+
+def require_scalar_fragment(w: Walker, what: str) -> None:
+    """The schema rules decide algorithms written as scalar loops over nodes.  A function that picks nodes with
+    whole-array selections (flatnonzero of a mask, argsort, argmin, searchsorted, ...) is outside that fragment: its
+    loops range over computed index sets whose contents no rule here can bound, so nothing is decided (exit 2) instead
+    of reading a shape rule's mismatch as a defect."""
+    hits = sorted({e.name for e in w.events if e.kind == "call" and e.name in VECTOR_SELECTORS})
+    hits += sorted({"." + e.target[2] for e in w.events if e.kind == "call" and e.target is not None
+                    and e.target[0] == "attr" and e.target[2] in ("argsort", "argmin", "argmax", "nonzero", "searchsorted")})
+    if hits:
+        raise AnalysisError(f"{what}: nodes are selected with whole-array operations ({', '.join(hits)}); the rules "
+                            "cover scalar loops over the nodes only - this form is outside the analysable fragment")
+
+
 def competitions_of(repo: Repo, cls: str, method: str, floor: int):
     w = model_walk(repo, cls, method)
+    require_scalar_fragment(w, f"{cls}.{method}")
     comps = find_competitions(w)
     if len(comps) < floor:
         raise AnalysisError(
@@ -180,9 +199,8 @@ def check_learn_state_premise(rep: Rep, repo: Repo, pre: str = "LEARN:") -> None
     try:
         c17.check_learn(tmp, trep, repo)
     except AnalysisError as exc:
-        rep.fn(pre + "analysis", repo.need_method("SupervisedOPF", "learn"), "C17 learn rule set", False,
-               f"could not be evaluated: {exc}")
-        return
+        # a premise that cannot be analysed leaves the property undecided (exit 2); it is not a finding
+        raise AnalysisError(f"premise (state left by SupervisedOPF.learn) could not be evaluated: {exc}")
     n = 0
     failed = False
     for o in tmp.obligations:
